@@ -111,6 +111,14 @@ CLAIMED["C07"] = dict(
     note=TRUST + " Sem/GoSem.v is a model of Go and Sem/Src.v the source-level meaning (both validated against outputs recorded from real Go); textual substitution in the generator defines the meaning of an instance. Validation per program, not a proof about all programs.",
 )
 
+CLAIMED["C17"] = dict(
+    category="translation_validation",
+    technique="per-project translation validation: three-package projects calling every method through all applicable call forms are paired with a trait-free single-package program that calls each impl body directly; the project's real Go AST (Sem/GoSem.v) and the reference's real typed tree (Sem/Src.v) are executed inside coqc and must print the same; single-error negative variants must be rejected by the real typer",
+    text="Random impl matrices over 3 traits (two of them both named Show, in different packages) x 10 receiver types (primitives, tuple, own and foreign structs/enums, generic instances), impls placed wherever the orphan rule allows; forms: Tr::m(x,a) concrete, x.m(a) and Tr::m(x,a) through bounds (single and combined, both orders), Tr::m(d,a) on let-coerced and argument-coerced dyn, inherent x.m(a) and T::m(x,a). Negatives: dyn coercion / UFCS without an impl, ambiguous dot call through two bounds, UFCS through a bound that does not name the trait. No theorem about the typer's resolution.",
+    design_ref="DESIGN.md §4 C17",
+    note=TRUST + " Sem/GoSem.v is a model of Go (interface assertions by method set) and Sem/Src.v the source-level meaning; validation per program, not a proof about all programs.",
+)
+
 NOT_YET = {}
 
 def main():
